@@ -213,6 +213,11 @@ def apply_resultpath(input, result, path="$"):
         )
 
     matches = re.findall(r"[^$.[\]]+", path)  # Regex to split the reference paths
+    # Bracket notation quotes its names: $['a'] addresses member a, not 'a'
+    matches = [
+        m[1:-1] if len(m) > 1 and m[0] == m[-1] and m[0] in "'\"" else m
+        for m in matches
+    ]
     return update_path(input, matches, result)
 
 def evaluate_payload_template(input, context, template):
